@@ -464,3 +464,47 @@ impl Property for Standalone {
     }
     fn schedule_mut<'a>(&self, case: &'a mut Case) -> Option<&'a mut Schedule> { Some(&mut case.schedule) }
 }
+
+/// C15, concurrent half: the same (scripts, schedule) executed from sequence origin 0 and from an origin just below 2^32. Under the controlled scheduler
+/// an execution is a pure function of (scenario, schedule), and code that is oblivious of the absolute counter values performs the same sequence of
+/// atomic operations from both origins -- so the two histories must be identical, operation by operation (answers, values, final drain, reported length).
+pub struct WrapDiffSched;
+static WD_KINDS: [Kind; 6] = [Kind::AtomicRing, Kind::AtomicRingSetter, Kind::FullSyncRing, Kind::FullSyncRingSetter, Kind::AtomicQueue, Kind::FullSyncQueue];
+static WD_CAPS: [u8; 3] = [2, 4, 8];
+
+impl Property for WrapDiffSched {
+    type Case = Case;
+    fn part(&self) -> &'static str { "wrap-diff-sched" }
+    fn strategy(&self, _tier: Tier) -> BoxedStrategy<Case> {
+        (case_strategy(&WD_KINDS, &WD_CAPS, 4, 4, true), 0u32..24).prop_map(|(mut c, d)| { if c.origin == 0 { c.origin = u32::MAX - d; } c }).boxed()
+    }
+    fn cases(&self, tier: Tier) -> u32 { match tier { Tier::Quick => 12_000, Tier::Thorough => 150_000 } }
+    fn run(&self, case: &Case) -> RunReport {
+        let mut fresh = case.clone();
+        fresh.origin = 0;
+        let a = execute(&fresh);
+        let b = execute(case);
+        let k = format!("wrap-diff-sched/{:?}", case.kind);
+        let classes = vec![format!("kind:{:?}", case.kind), format!("cap:{}", case.cap), format!("threads:{}", case.threads.len())];
+        let fingerprint = { use std::hash::{Hash, Hasher}; let mut h = std::collections::hash_map::DefaultHasher::new(); format!("{:?}{}{}{:?}", case.kind, case.cap, case.prefill, case.threads).hash(&mut h); b.trace.hash(&mut h); h.finish() };
+        let key = |x: &Executed| { let mut v: Vec<(u8, u64, Act)> = x.ops.iter().map(|o| (o.thread, o.call, o.act)).collect(); v.sort_by_key(|e| (e.0, e.1)); v.into_iter().map(|e| (e.0, e.2)).collect::<Vec<_>>() };
+        let summary = format!("origin 0: {} | origin {:#x}: {}", render(&a.ops), case.origin, render(&b.ops));
+        // a step budget / blocked end in either run: nothing to compare
+        let odd = |e: &EndState| matches!(e, EndState::Budget | EndState::Blocked { .. });
+        if odd(&a.end) || odd(&b.end) { return RunReport { verdict: Verdict::Inconclusive("step-budget".into()), nontrivial: false, classes, fingerprint, trace: Some(b.trace.clone()), summary }; }
+        let verdict = if std::mem::discriminant(&a.end) != std::mem::discriminant(&b.end) {
+            Verdict::Violation { signature: format!("{k}/different-end"), detail: format!("from origin 0 the run ended {:?}, from origin {:#x} it ended {:?}; {summary}", a.end, case.origin, b.end) }
+        } else if key(&a) != key(&b) || a.drained != b.drained || a.len_at_end != b.len_at_end {
+            Verdict::Violation { signature: format!("{k}/different-answer"), detail: format!("the same scripts under the same schedule answer differently from origin 0 and from origin {:#x} (final drain {:?} vs {:?}, reported length {} vs {}); {summary}",
+                                 case.origin, a.drained.iter().map(|v| payload::show(*v)).collect::<Vec<_>>(), b.drained.iter().map(|v| payload::show(*v)).collect::<Vec<_>>(), a.len_at_end, b.len_at_end) }
+        } else { Verdict::Pass };
+        let crossed = case.threads.iter().map(|t| t.len()).sum::<usize>() as u32 + case.prefill as u32 > u32::MAX - case.origin;
+        RunReport { verdict, nontrivial: b.inside > 0 && crossed, classes, fingerprint, trace: Some(b.trace.clone()), summary }
+    }
+    fn rule(&self) -> String {
+        "generated: the two rings (value- and setter-based publishing) and the two non-blocking queues x capacity {2,4,8} x prefill {0,1,cap-1,cap} x 2..4 threads of 1..4 put/get x schedule (sparse preemptions | PCT | random walk) x a sequence origin within 24 of the u32 wrap; each case is executed twice under the controlled scheduler -- from origin 0 and from that origin -- with the same schedule; \
+         oracle (differential): every operation's answer and value, the final drain and the reported length are identical in the two executions, and both end the same way (completed / stall / panic); \
+         non-trivial: a thread was switched out inside an operation AND the script can carry a counter across the wrap".into()
+    }
+    fn schedule_mut<'a>(&self, case: &'a mut Case) -> Option<&'a mut Schedule> { Some(&mut case.schedule) }
+}
